@@ -287,6 +287,24 @@ var c14cycles = []struct{ desc, body string }{
 	{"leafref to a container, a list, a choice and a leaf-list", "container c { leaf x { type string; } } list l { key k; leaf k { type string; } } leaf-list ll { type string; } leaf a { type leafref { path \"/c\"; } } leaf b { type leafref { path \"/l\"; } } leaf d { type leafref { path \"/ll\"; } }"},
 	{"modifier outside a pattern", "leaf a { type int8 { range \"1..2\" { modifier invert-match; } } } leaf b { type string { length 3 { modifier invert-match; } pattern x { modifier invert-match; } } }"},
 	{"config, mandatory, default and key in rpc and notification content", "notification n { leaf a { type string; config true; mandatory true; } container c { config false; } } rpc r { input { leaf a { type string; config false; default x; } } output { list l { key k; config true; leaf k { type string; } } } }"},
+	{"grouping uses itself through its own notification", "grouping g { leaf l { type string; } notification n { container c { uses g; } } } container x { uses g; }"},
+	{"grouping uses itself through its own action", "grouping g { leaf l { type string; } action a { input { container c { uses g; } } } } container x { uses g; }"},
+	{"grouping uses itself directly under its notification", "grouping g { leaf l { type string; } notification n { uses g; } } container x { uses g; }"},
+	{"grouping that only uses itself", "grouping g { uses g; } uses g;"},
+	{"grouping that only uses itself, used in a container", "grouping g { uses g; } container c { uses g; }"},
+	{"recursive grouping through a case and a leafref to a missing name", "grouping g { choice c { case k { uses g; } } } container x { uses g; leaf r { type leafref { path \"../zzz\"; } } }"},
+	{"belongs-to in a module with a uses of an unknown grouping", "belongs-to x { prefix x; } container c { uses zz; }"},
+	{"deviate add max-elements on a leaf", "leaf l { type string; } deviation \"/l\" { deviate add { max-elements 3; } }"},
+	{"deviate add min-elements on a container", "container c { } deviation \"/c\" { deviate add { min-elements 1; } }"},
+	{"deviate add unique on a leaf", "leaf l { type string; } deviation \"/l\" { deviate add { unique \"a\"; } }"},
+	{"deviate delete unique on a leaf-list", "leaf-list l { type string; } deviation \"/l\" { deviate delete { unique \"a\"; } }"},
+	{"deviate not-supported on a case", "choice ch { case k { leaf a { type string; } } case j { leaf b { type string; } } } deviation \"/ch/k\" { deviate not-supported; }"},
+	{"deviate add default on a container", "container c { } deviation \"/c\" { deviate add { default x; } }"},
+	{"deviate replace type on a container", "container c { } deviation \"/c\" { deviate replace { type string; } }"},
+	{"deviate add must on a choice", "choice ch { leaf a { type string; } } deviation \"/ch\" { deviate add { must \"1\"; } }"},
+	{"deviate replace units on a list", "list l { key k; leaf k { type string; } } deviation \"/l\" { deviate replace { units u; } }"},
+	{"deviate add config on an rpc", "rpc r { } deviation \"/r\" { deviate add { config false; } }"},
+	{"deviate add mandatory on a list", "list l { key k; leaf k { type string; } } deviation \"/l\" { deviate add { mandatory true; } }"},
 	{"belongs-to in a module", "belongs-to x { prefix x; } leaf a { type nosuch; }"},
 	{"statements in places they do not belong", "leaf a { type string; container c { } key k; } container c { type string; enum x; } list l { key k; leaf k { type string; } value 3; position 2; } choice ch { leaf-list ll { type string; } key z; }"},
 	{"statements given twice", "typedef t { type string; default a; default b; } leaf l { type string; default a; default b; units u; units v; description x; description y; } choice c { default a; default a; case a { leaf q { type string; } } } container k { presence a; presence b; config true; config false; }"},
@@ -415,6 +433,11 @@ func C14(c *core.Ctx) {
 	for _, cy := range c14cycles {
 		add(c14case{Desc: cy.desc, Files: map[string]string{"x": hdr("x") + "extension ext { argument a; } feature f; feature g;\n" + cy.body + "\n}"}, Main: "x"})
 	}
+	// (d2) if-feature where no module of the load has declared a feature yet
+	add(c14case{Desc: "if-feature without any feature statement", Files: map[string]string{"x": "module x { namespace \"urn:x\"; prefix x; revision 2020-01-01;\n leaf a { if-feature nosuch; type string; } container c { if-feature \"not nosuch\"; }\n}"}, Main: "x"})
+	add(c14case{Desc: "features declared only in an included submodule", Files: map[string]string{
+		"x":     "module x { namespace \"urn:x\"; prefix x; include x-sub; revision 2020-01-01;\n leaf a { if-feature sf; type string; } leaf b { if-feature \"not sf\"; type string; }\n}",
+		"x-sub": "submodule x-sub { belongs-to x { prefix x; } feature sf; leaf s { if-feature sf; type string; } }"}, Main: "x"})
 	// (e) import / include graphs
 	type graph struct {
 		desc  string
